@@ -10,4 +10,5 @@ if [ ! -x "$here/bin/bbverif" ] || [ -n "$(find "$here/sa" -name '*.go' -newer "
   GOFLAGS=-mod=vendor "$here/setup.sh" >/dev/null
 fi
 export GOFLAGS=-mod=mod
+export VERIF_HOME="${VERIF_HOME:-$here}"
 exec "$here/bin/bbverif" check -property "$1" -tier "${2:-${VERIF_TIER:-quick}}" -repo "${VERIF_REPO:-/repo}" -out "${VERIF_OUT:-$here}"
